@@ -377,9 +377,21 @@ def r16_4(prog, rep):
             rep.broken_("rule=R16.4 %s: cannot enumerate the loop over the candidate sets" % fname)
             continue
         var, vals = seq
+        # constant tables declared in the function (`static const int yoffs[] = {0, -1, 1}`) are part of the expressions' meaning
+        tables = {}
+        for b, i, x, line in cfg.all_elems():
+            for l, kind, nn in writes(x):
+                ini = strip_casts(cfg.resolve(nn["init"])) if kind == "decl" and nn.get("init") is not None else None
+                if isinstance(ini, dict) and ini.get("k") == "init" and "const" in (nn.get("t") or ""):
+                    for name, val in ini["fs"]:
+                        cv = 0 if val is None else const_eval(f, val)
+                        if str(name).isdigit() and cv is not None:
+                            tables["%s[%d]" % (lv(l), int(name))] = cv
         got = []
         for v in vals:
-            got.append((eval_in({var: v}, offs[0], f), eval_in({var: v}, slotx, f)))
+            st_ = dict(tables)
+            st_[var] = v
+            got.append((eval_in(st_, offs[0], f), eval_in(st_, slotx, f)))
         # the offset is added to an unsigned year: -1 appears as 2^32 - 1
         got = [((g[0] - (1 << 32)) if g[0] is not None and g[0] >= (1 << 31) else g[0], g[1]) for g in got]
         offsets = [g[0] for g in got]
@@ -415,6 +427,9 @@ def run(prog, rep, tier, snap):
     from ..rules import state
     rep.rule("R16.6", "the fillers and their helpers carry no state from one rule to the next", 1)
     rep.call(state.no_carried_state, prog, rep, "R16.6", "rrule")
+    from . import c07
+    rep.rule("R07.12", "the seed of the next batch is kept on the wall clock, before the batch is converted and sorted (shared with C07)", 3)
+    rep.call(c07.r07_12, prog, rep)
     from ..rules import encodings
     rep.rule("R16.7", "the COUNT the reader stores is the COUNT that was written (no narrowing on the way into the rule)", 12)
     rep.call(encodings.r05_4c, prog, rep, "R16.7")
